@@ -96,6 +96,12 @@ CLAIMED = {
          "Proof: the prediction is the sum over stored orders of a_s^k alpha^l LR^i LF^j <operator, pdfs> (power 0 special-casing harmless), linear in the PDF, independent of "
          "rows of missing flavours and of key order; alpha_s is asked with nf = NfFF (fixed flavour) or 3 + #{(m k)^2 <= muR^2} (ZM-VFNS). Real outputs are contracted independently.",
          "Trusted: Coq kernel+vm_compute; harness; eko's Couplings running itself is outside; logs enter as the code's floats.", "4 C17"),
+ "C20": ("Coq theorems on a hand-written model of compatibility.update (dictionary lemmas; complete enumeration of the card shapes by vm_compute) and a heap frame theorem; "
+         "tied by differential correspondence on card shapes and by a mutation log of every caller-owned container during real runs",
+         "Proof: a container no write targets is unchanged after any history (frame); the scale-variation defaults and the target upgrade are idempotent for arbitrary cards; the "
+         "whole theory upgrade is idempotent on the complete enumeration of the 3456 card shapes it can distinguish. The premise of the frame theorem (no write to caller-owned "
+         "containers) and the echo of theory / observables / grid / pids / projectile / point kinematics are established on real runs with mutation-logging cards.",
+         "Trusted: Coq kernel+vm_compute; harness (intercepts every mutating method of dict and list); model tied by sampled correspondence.", "4 C20"),
  "C18": ("translator tie: every njit kernel and every RSL construction site is regenerated from the source (tools/pyk2coq.py, tools/sites.py) on each run; the in-bounds "
          "predicate over the regenerated site table is decided by vm_compute and lifted by a theorem proved by induction on expressions",
          "Partial proof (memory-safety half): every translated part of every RSL site is handed at least arity-many arguments, hence (theorem, all z, all vectors of that length) "
